@@ -135,6 +135,10 @@ func genBatch(r *rand.Rand, dir string, idx int) batchSpec {
 			fmt.Fprintf(&sb, "exec vhelper mktree big-%s 400\n", tok)
 			spec.BigName, spec.BigToken = name, tok
 		}
+		// a non-empty directory that its owner cannot even read (removal has to make it accessible first)
+		if r.Intn(3) == 0 {
+			fmt.Fprintf(&sb, "mkdir un-%s/deep\nexec vhelper touch un-%s/deep/f\nchmod %s un-%s/deep\n", tok, tok, []string{"000", "100", "200", "300"}[r.Intn(4)], tok)
+		}
 		// read-only trees
 		if r.Intn(2) == 0 {
 			fmt.Fprintf(&sb, "mkdir ro-%s/deep\nexec vhelper touch ro-%s/deep/f ro-%s/g\nchmod 444 ro-%s/deep/f ro-%s/g\nchmod 555 ro-%s/deep\nchmod 555 ro-%s\n", tok, tok, tok, tok, tok, tok, tok)
